@@ -648,10 +648,12 @@ func (c *Client) HandleInbound(data []byte, from net.Addr) (bool, error) {
 	//  - Non-STUN message from the STUN server
 
 	switch {
-	case stun.IsMessage(data):
-		return true, c.handleSTUNMessage(data, from)
+	// ChannelData is tested first: its first two bits are 01 (STUN: 00), whereas the relayed
+	// payload it carries may well begin with the STUN magic cookie.
 	case proto.IsChannelData(data):
 		return true, c.handleChannelData(data)
+	case stun.IsMessage(data):
+		return true, c.handleSTUNMessage(data, from)
 	case c.stunServerAddr != nil && from.String() == c.stunServerAddr.String():
 		// Received from STUN server but it is not a STUN message
 		return true, errNonSTUNMessage
